@@ -1,39 +1,41 @@
 import GV.Model.Offsets
+import GV.Lib.CborArray
 /-
-  C07 — what the property demands, stated independently of the extractor's
-  arithmetic: the byte range of a component is obtained by composing
-  `childSpans` along its path in the block (header → bodies → body i → key 1 →
-  output j …). No header size is assumed or added anywhere here.
+  C07/C01 — the independent path-composition spec of `GV.Model.OffsetsTruth`, executed on an
+  `Array UInt8` with absolute positions (no slices, no suffix copies). It uses the array-backed
+  machine, which is PROVED equal to the list machine (`GV.Proofs.CborArray`: `wfItemA_eq`,
+  `childSpansA_eq`); a span's children are read from the item that STARTS at the span's offset.
+  This is what the drivers evaluate; `GV.Model.OffsetsTruth` (lists) is kept for the examples.
 -/
-namespace GV.Model.OffsetsTruth
+namespace GV.Model.OffsetsTruthA
 open GV.Cbor GV.Model.Offsets
 
 /- `isArrayAt` / `isMapAt` / `uintAt` read the head of the item that STARTS at the span (a head
    is at most 9 bytes, and `readHead` never looks further), so no copy of the span is made. -/
 
-/-- absolute spans of the direct children of the array/map occupying `sp` in `b` -/
-def kidsAt (b : Bytes) (sp : Nat × Nat) : Option (List (Nat × Nat)) :=
-  match childSpans (slice b sp.1 sp.2) with
+/-- absolute spans of the direct children of the array/map that starts at `sp.1` -/
+def kidsAt (b : Array UInt8) (sp : Nat × Nat) : Option (List (Nat × Nat)) :=
+  match childSpansA b sp.1 with
   | some (_, cs, _) => some (cs.map fun (o, l) => (sp.1 + o, l))
   | none => none
 
-def isArrayAt (b : Bytes) (sp : Nat × Nat) : Bool :=
-  match readHead (b.drop sp.1) with
+def isArrayAt (b : Array UInt8) (sp : Nat × Nat) : Bool :=
+  match readHeadA b sp.1 with
   | .mk 4 _ _ _ => true
   | _ => false
 
-def isMapAt (b : Bytes) (sp : Nat × Nat) : Bool :=
-  match readHead (b.drop sp.1) with
+def isMapAt (b : Array UInt8) (sp : Nat × Nat) : Bool :=
+  match readHeadA b sp.1 with
   | .mk 5 _ _ _ => true
   | _ => false
 
-def uintAt (b : Bytes) (sp : Nat × Nat) : Option Nat :=
-  match readHead (b.drop sp.1) with
+def uintAt (b : Array UInt8) (sp : Nat × Nat) : Option Nat :=
+  match readHeadA b sp.1 with
   | .mk 0 _ arg _ => some arg
   | _ => none
 
 /-- value span stored under unsigned key `k` in alternating key/value spans (last one wins) -/
-def mapLookup (b : Bytes) (k : Nat) : List (Nat × Nat) → Option (Nat × Nat)
+def mapLookup (b : Array UInt8) (k : Nat) : List (Nat × Nat) → Option (Nat × Nat)
   | ks :: vs :: rest =>
     match mapLookup b k rest with
     | some r => some r
@@ -41,7 +43,7 @@ def mapLookup (b : Bytes) (k : Nat) : List (Nat × Nat) → Option (Nat × Nat)
   | _ => none
 
 /-- outputs of a Shelley+ transaction body (a map; key 1) -/
-def outputsOf (b : Bytes) (body : Nat × Nat) : Option (List (Nat × Nat)) :=
+def outputsOf (b : Array UInt8) (body : Nat × Nat) : Option (List (Nat × Nat)) :=
   if !isMapAt b body then none else
   match kidsAt b body with
   | none => none
@@ -50,7 +52,7 @@ def outputsOf (b : Bytes) (body : Nat × Nat) : Option (List (Nat × Nat)) :=
     | none => some []
     | some v => if isArrayAt b v then kidsAt b v else none
 
-def mkLocs (b : Bytes) (md : List (Nat × Nat)) : Nat → List (Nat × Nat) → List (Nat × Nat) → Option (List Loc)
+def mkLocs (b : Array UInt8) (md : List (Nat × Nat)) : Nat → List (Nat × Nat) → List (Nat × Nat) → Option (List Loc)
   | i, body :: bs, wit :: ws =>
     match outputsOf b body, mkLocs b md (i + 1) bs ws with
     | some outs, some rest =>
@@ -59,8 +61,8 @@ def mkLocs (b : Bytes) (md : List (Nat × Nat)) : Nat → List (Nat × Nat) → 
   | _, [], [] => some []
   | _, _, _ => none
 
-def shelleyTruth (b : Bytes) : Option (List Loc) :=
-  let top := (0, b.length)
+def shelleyTruth (b : Array UInt8) : Option (List Loc) :=
+  let top := (0, b.size)
   if !isArrayAt b top then none else
   match kidsAt b top with
   | some (_ :: bodiesSp :: witsSp :: rest) =>
@@ -74,7 +76,7 @@ def shelleyTruth (b : Bytes) : Option (List Loc) :=
     | _, _ => none
   | _ => none
 
-def byronTxs (b : Bytes) : List (Nat × Nat) → Option (List Loc)
+def byronTxs (b : Array UInt8) : List (Nat × Nat) → Option (List Loc)
   | [] => some []
   | pair :: more =>
     match kidsAt b pair, byronTxs b more with
@@ -85,8 +87,8 @@ def byronTxs (b : Bytes) : List (Nat × Nat) → Option (List Loc)
       some ({ body := body, wit := wit, outs := outs } :: rest)
     | _, _ => none
 
-def byronTruth (b : Bytes) : Option (List Loc) :=
-  match kidsAt b (0, b.length) with
+def byronTruth (b : Array UInt8) : Option (List Loc) :=
+  match kidsAt b (0, b.size) with
   | some [_, body, _] =>
     match kidsAt b body with
     | some [txp, _, _, _] =>
@@ -96,7 +98,7 @@ def byronTruth (b : Bytes) : Option (List Loc) :=
     | _ => none
   | _ => none
 
-def dijkstraTxs (b : Bytes) : List (Nat × Nat) → Option (List Loc)
+def dijkstraTxs (b : Array UInt8) : List (Nat × Nat) → Option (List Loc)
   | [] => some []
   | tx :: more =>
     match kidsAt b tx, dijkstraTxs b more with
@@ -104,12 +106,12 @@ def dijkstraTxs (b : Bytes) : List (Nat × Nat) → Option (List Loc)
       match outputsOf b body with
       | some outs =>
         some ({ body := body, wit := wit, outs := outs,
-                aux := if slice b aux.1 aux.2 = [0xf6] then (0, 0) else aux } :: rest)
+                aux := if aux.2 = 1 ∧ b[aux.1]? = some 0xf6 then (0, 0) else aux } :: rest)
       | none => none
     | _, _ => none
 
-def dijkstraTruth (b : Bytes) : Option (List Loc) :=
-  match kidsAt b (0, b.length) with
+def dijkstraTruth (b : Array UInt8) : Option (List Loc) :=
+  match kidsAt b (0, b.size) with
   | some [_, body] =>
     match kidsAt b body with
     | some [_, txs, _, _] =>
@@ -120,9 +122,9 @@ def dijkstraTruth (b : Bytes) : Option (List Loc) :=
     | _ => none
   | _ => none
 
-def truth (era : String) (b : Bytes) : Option (List Loc) :=
+def truth (era : String) (b : Array UInt8) : Option (List Loc) :=
   if era = "byron" then byronTruth b
   else if era = "dijkstra" then dijkstraTruth b
   else shelleyTruth b
 
-end GV.Model.OffsetsTruth
+end GV.Model.OffsetsTruthA
